@@ -516,6 +516,12 @@ def num_euler_items(ctx):
             rt.append(("edge_roll1e-%d" % k, sr * (pi - 10.0 ** -k), rng.uniform(-1.2, 1.2), rng.uniform(-pi, pi)))
     for r0, p0, y0 in itertools.product((0.0, pi / 2, pi, -pi / 2), (0.0, 0.7, -0.7), (0.0, pi / 2, pi, -pi / 2)):
         rt.append(("quarter_rollyaw", r0, p0, y0))
+    # a caller-chosen gimbal eps (1e-5) through the function and the method form: pitch inside the DEFAULT band
+    # (1 - |sin pitch| in [2e-5, 4e-4)) must then still round-trip; float64 only (the band is below float32 resolution)
+    for sg in (1, -1):
+        for _ in range(6 if q else 60):
+            gap = 10.0 ** rng.uniform(math.log10(2.5e-5), math.log10(3.5e-4))
+            rt.append(("custom_eps", rng.uniform(-pi, pi), sg * math.asin(1 - gap), rng.uniform(-pi, pi)))
     for ci, (name, r0, p0, y0) in enumerate(rt):
         qm = mp_euler_quat(mp.mpf(r0), mp.mpf(p0), mp.mpf(y0))
         if rng.random() < 0.5:
@@ -526,7 +532,12 @@ def num_euler_items(ctx):
             t, s = [rng.gauss(0, 3) for _ in range(3)], [10.0 ** rng.uniform(-3, 3)]
             t, s = round_to([t], dt)[0], round_to([s], dt)[0]
             row = {"SO3": qv, "SE3": t + qv, "RxSO3": qv + s, "Sim3": t + qv + s}[ty]
-            items.append({"kind": "nert", "ty": ty, "dt": dt, "x": [v.hex() for v in row], "cell": name})
+            it = {"kind": "nert", "ty": ty, "dt": dt, "x": [v.hex() for v in row], "cell": name}
+            if name == "custom_eps":
+                if dt != "float64":
+                    continue
+                it.update(eps=1e-5, form=["function_pos", "function_kw", "method"][ci % 3])
+            items.append(it)
     return items
 
 
@@ -570,14 +581,22 @@ def ev_nert(items):
     out = []
     by = {}
     for it in items:
-        by.setdefault((it["ty"], it["dt"]), []).append(it)
-    for (ty, dt), its in by.items():
+        by.setdefault((it["ty"], it["dt"], it.get("eps"), it.get("form")), []).append(it)
+    for (ty, dt, geps, form), its in by.items():
         eps = mp.mpf(eps_of(dt))
         X = L.mk(ty, [[float.fromhex(h) for h in it["x"]] for it in its], tdtype(dt))
         n = len(its)
         if n % 2 == 0:
             X = X.lview(2, n // 2)
-        E = X.euler()
+        if geps is None:
+            E = X.euler()
+        elif form == "function_pos":
+            E = pp.euler(X, geps)
+        elif form == "function_kw":
+            E = pp.euler(X, eps=geps)
+        else:
+            E = X.euler(eps=geps)
+        band = mp.mpf(GIMBAL_EPS if geps is None else geps)
         Y = pp.euler2SO3(E)
         ok = tuple(E.shape) == tuple(X.lshape) + (3,) and isinstance(Y, pp.LieTensor) and Y.ltype == pp.SO3_type
         Ef = E.reshape(n, 3) if ok else None
@@ -588,8 +607,8 @@ def ev_nert(items):
             x, y, z, w = qx
             t2 = 2 * (w * y - z * x) / (x * x + y * y + z * z + w * w)
             gap = 1 - abs(t2)
-            g = 9 if gap < 2 * mp.mpf(GIMBAL_EPS) else (0 if gap >= mp.mpf("0.1") else 1 if gap >= mp.mpf("0.01")
-                                                            else 2 if gap >= mp.mpf("0.001") else 3)
+            g = 9 if gap < 2 * band else (0 if gap >= mp.mpf("0.1") else 1 if gap >= mp.mpf("0.01")
+                                          else 2 if gap >= mp.mpf("0.001") else 3 if gap >= 2 * mp.mpf(GIMBAL_EPS) else 4)
             ev = {"op": "nert", "ty": ty, "dt": dt, "cell": it["cell"], "g": g, "finite": False, "rot": CAP, "rng": CAP}
             if ok:
                 e, qv = Ef[i].tolist(), Yf[i].tolist()
